@@ -80,3 +80,72 @@ pub open spec fn frac_seq(b: Buffer) -> Seq<u8> { b.data@.subrange(2 + b.int_dig
 pub open spec fn same_outside(a: Buffer, b: Buffer, lo: int, hi: int) -> bool {
     a.int_digits == b.int_digits && a.frac_digits == b.frac_digits && forall|i: int| 0 <= i < 130 && !(lo <= i < hi) ==> a.data@[i] == b.data@[i]
 }
+// ---- decimal digits of a binary fraction x / 2^w: after m digits, x * 10^m = fdig * 2^w + frem ----
+pub open spec fn fdig(x: int, m: int, w: int) -> int { (x * ipow(10, m)) / p2(w) }
+pub open spec fn frem(x: int, m: int, w: int) -> int { (x * ipow(10, m)) % p2(w) }
+pub open spec fn ordi(a: int, b: int) -> Ordering { if a < b { Ordering::Less } else if a == b { Ordering::Equal } else { Ordering::Greater } }
+pub open spec fn imin(a: int, b: int) -> int { if a < b { a } else { b } }
+// the m-digit expansion, rounded to nearest, is strictly within half a unit of the last of `nbits` fractional bits:
+//   min(rem, 2^w - rem) / (2^w 10^m) < 1 / 2^(nbits+1)
+pub open spec fn fclose(x: int, m: int, w: int, nbits: int) -> bool {
+    2 * imin(frem(x, m, w), p2(w) - frem(x, m, w)) * p2(nbits) < ipow(10, m) * p2(w)
+}
+pub proof fn lemma_fdig_intro(x: int, m: int, w: int, d: int, r: int)
+    requires w >= 0, 0 <= r < p2(w), x * ipow(10, m) == d * p2(w) + r
+    ensures fdig(x, m, w) == d, frem(x, m, w) == r
+{
+    lemma_p2_pos(w);
+    lemma_fundamental_div_mod_converse(x * ipow(10, m), p2(w), d, r);
+}
+// the value lives in the upper half-word: same digits, same order against one half, same closeness
+pub proof fn lemma_frac_half(x: int, xh: int, m: int, hw: int, nbits: int)
+    requires hw >= 1, x == xh * p2(hw), xh >= 0, m >= 0, nbits >= 0
+    ensures fdig(x, m, 2 * hw) == fdig(xh, m, hw), frem(x, m, 2 * hw) == frem(xh, m, hw) * p2(hw),
+            ordi(frem(x, m, 2 * hw), p2(2 * hw - 1)) == ordi(frem(xh, m, hw), p2(hw - 1)),
+            fclose(x, m, 2 * hw, nbits) == fclose(xh, m, hw, nbits)
+{
+    let t = ipow(10, m); let ph = p2(hw); let pw = p2(2 * hw);
+    lemma_p2_pos(hw); lemma_p2_add(hw, hw); lemma_p2_add(hw - 1, hw); lemma_p2_pos(hw - 1); lemma_p2_pos(nbits); lemma_ipow_pos(10, m);
+    assert(pw == ph * ph);
+    let n = xh * t;
+    lemma_fundamental_div_mod(n, ph); lemma_mod_bound(n, ph);
+    let q = n / ph; let r = n % ph;
+    assert(x * t == q * pw + r * ph) by (nonlinear_arith) requires x == xh * ph, n == xh * t, n == ph * q + r, pw == ph * ph;
+    assert(0 <= r * ph < pw) by (nonlinear_arith) requires 0 <= r < ph, pw == ph * ph, ph > 0;
+    lemma_fdig_intro(x, m, 2 * hw, q, r * ph);
+    let hh = p2(hw - 1);
+    assert(p2(2 * hw - 1) == hh * ph);
+    assert((r * ph < hh * ph) == (r < hh) && (r * ph == hh * ph) == (r == hh)) by (nonlinear_arith) requires ph > 0;
+    let pn = p2(nbits);
+    let a = imin(r, ph - r);
+    assert(imin(r * ph, pw - r * ph) == a * ph) by (nonlinear_arith) requires pw == ph * ph, ph > 0, a == imin(r, ph - r);
+    assert((2 * (a * ph) * pn < t * pw) == (2 * a * pn < t * ph)) by (nonlinear_arith) requires pw == ph * ph, ph > 0;
+}
+// the delegated fraction: a multiple of 2^(w-nbits) with nbits < w/2 is a multiple of 2^(w/2), and its upper half a multiple of 2^(w/2-nbits)
+pub proof fn lemma_frac_upper(x: int, hw: int, nbits: int)
+    requires hw >= 1, 0 <= nbits < hw, x >= 0, x % p2(2 * hw - nbits) == 0
+    ensures x == (x / p2(hw)) * p2(hw), (x / p2(hw)) % p2(hw - nbits) == 0, x / p2(hw) >= 0
+{
+    let ph = p2(hw); let pd = p2(hw - nbits); let pb = p2(2 * hw - nbits);
+    lemma_p2_pos(hw); lemma_p2_pos(hw - nbits); lemma_p2_add(hw, hw - nbits); lemma_p2_pos(2 * hw - nbits);
+    assert(pb == ph * pd);
+    lemma_fundamental_div_mod(x, pb);
+    let j = x / pb;
+    assert(x == (j * pd) * ph) by (nonlinear_arith) requires x == pb * j, pb == ph * pd;
+    lemma_fundamental_div_mod_converse(x, ph, j * pd, 0);
+    lemma_fundamental_div_mod_converse(j * pd, pd, j, 0);
+    assert(j >= 0) by (nonlinear_arith) requires x == pb * j, x >= 0, pb > 0;
+    assert(j * pd >= 0) by (nonlinear_arith) requires j >= 0, pd > 0;
+}
+// the trim test of write_frac_dec: with the exact scaled half-unit T (2 T 2^nbits = 10^m 2^w) in `tie`, `rem < tie || (2^w - rem) mod 2^w < tie` gives closeness
+pub proof fn lemma_trim_close(x: int, m: int, w: int, nbits: int, rem: int, tie: int, wneg: int)
+    requires w >= 1, nbits >= 0, m >= 0, 0 <= rem < p2(w), frem(x, m, w) == rem, 2 * tie * p2(nbits) == ipow(10, m) * p2(w),
+             wneg == (if rem == 0 { 0 } else { p2(w) - rem }), rem < tie || wneg < tie
+    ensures fclose(x, m, w, nbits)
+{
+    lemma_p2_pos(w); lemma_p2_pos(nbits); lemma_ipow_pos(10, m);
+    let pn = p2(nbits); let a = imin(rem, p2(w) - rem);
+    assert(tie > 0) by (nonlinear_arith) requires 2 * tie * pn == ipow(10, m) * p2(w), pn > 0, ipow(10, m) >= 1, p2(w) >= 1;
+    assert(a < tie);
+    assert(2 * a * pn < 2 * tie * pn) by (nonlinear_arith) requires a < tie, pn > 0;
+}
